@@ -5,7 +5,8 @@ ID = "C18"
 LEAN_PROPS = ["FcpptProofs.Props.C18"]
 HARNESS = {"src": "harness/c18.cpp"}
 TIE = ("hand-written model (FcpptModel/Model/C18.lean, mirrors int_range/int_iterator, enum range/iterator, cyclic_iterator, "
-       "spiral_iterator/range, neighbours, iterator::range/adapt_range, range::size) + differential correspondence against the real templates")
+       "spiral_iterator/range, neighbours, iterator::range/adapt_range/range_comparison, iterator::base operators, range::size/empty/singular/from_pair) "
+       "+ differential correspondence against the real templates")
 RULE = ("irs ty b: digest over all 256 values e of the elements/size()/range::size lines of make_int_range(b, e) for the 8-bit types "
         "(plain and strong typedef) - all (b, e) pairs; ir/irc: boundary lattice pairs and near-boundary random pairs of the 16/32/64-bit "
         "types; er/ers/era: every (start, end) pair of enums with 1..9 enumerators over six underlying types; cyc: every boundary of "
@@ -13,14 +14,24 @@ RULE = ("irs ty b: digest over all 256 values e of the elements/size()/range::si
         "distance), plus large |k|; cycw: random walks of ++ -- it++ it-- += -= [] on vector and list; sp: spiral ranges of distance "
         "0..9 (thorough 0..12), 49, 50 from origins near 0, random and near the type limits; nb: neighbour arrays; itr/adr: every "
         "sub-range of containers up to length 6 / whole containers; mirc: the static count lists. "
+        "Every public member: iits/iit, eit (int_iterator / enum iterator used directly: == != * it++ swap, all 65536 8-bit pairs), itris/itri "
+        "(iterator::range over int_iterators, no clamp), erd (enum range constructed directly), cycp (two cyclic iterators at every position "
+        "incl. outside / at the end of the boundary, empty and different boundaries: == != < > <= >= a-b, self comparison, get, get_boundary, ->, "
+        "member / free / self swap, copy), cycx (every one- and two-step walk from every position), cycl (steps up to the limits of ptrdiff_t), "
+        "cycd (default constructor), cycc (converting constructor / assignment), spi (spiral_iterator directly, past end(), swap), sp at "
+        "exactly d+1 from the limits of int / long, itrc (range comparison); every ir / er / itr / adr line also carries *begin(), *end(), "
+        "range::empty, range::singular. Undefined behaviour that the model names (signed-overflow, div-zero) is really executed in a few "
+        "lines per run and must be reported by UBSan. "
         "An op is non-trivial if its result is not bad-op and the range is not empty; distinct = distinct op lines.")
 ASSUMPTIONS = [
     "fixed-width integer semantics of LP64 g++: rank below int promotes (bits < 32), conversions wrap modulo 2^bits, unsigned arithmetic is modular, "
     "int/long overflow is undefined (model: Fault.signedOverflow)",
     "a strong_typedef<T> behaves as T for ++, <, ==, undecorate (that transparency is property C17)",
     "std::vector / std::list iterators = indices into a list; std::distance / std::next / std::prev by their standard meaning",
-    "grid positions stay at least 20000 away from the limits of the coordinate type (the spiral model computes in unbounded integers)",
-    "cyclic_iterator: boundary non-empty and the start inside it (otherwise advance divides by zero / leaves the boundary: not part of the property)",
+    "spiral over int / long coordinates: every arithmetic operation of increment / end() is checked against the type (overflow = fault); "
+    "narrower coordinate types are not instantiated",
+    "cyclic_iterator: container iterators are positions; positions outside the boundary and empty boundaries are modelled as the code behaves "
+    "(the property speaks about non-empty boundaries with the start inside)",
     "enum = (number of enumerators, width of size_type); enumerator = its value",
 ]
 TRUSTED = ["harness/c18.cpp and the digest/line protocol (vh.hpp, Proto.lean)",
@@ -28,8 +39,11 @@ TRUSTED = ["harness/c18.cpp and the digest/line protocol (vh.hpp, Proto.lean)",
 
 T8 = ["i8", "u8", "si8", "su8"]
 BITS = {"i8": (True, 8), "u8": (False, 8), "i16": (True, 16), "u16": (False, 16), "i32": (True, 32), "u32": (False, 32),
-        "i64": (True, 64), "u64": (False, 64), "si8": (True, 8), "su8": (False, 8), "si32": (True, 32), "su32": (False, 32)}
-WIDE = ["i16", "u16", "i32", "u32", "i64", "u64", "si32", "su32"]
+        "i64": (True, 64), "u64": (False, 64), "si8": (True, 8), "su8": (False, 8), "si32": (True, 32), "su32": (False, 32),
+        "si16": (True, 16), "su16": (False, 16), "si64": (True, 64), "su64": (False, 64)}
+WIDE = ["i16", "u16", "i32", "u32", "i64", "u64", "si32", "su32", "si16", "su16", "si64", "su64"]
+I64_MAX = (1 << 63) - 1
+I64_MIN = -(1 << 63)
 ENUMS = {1: 32, 2: 8, 3: 32, 4: 8, 5: 16, 6: 32, 7: 64, 8: 16, 9: 8}
 
 
@@ -44,24 +58,33 @@ def nontrivial(op, result):
     return not result.startswith("n=0 ")
 
 
+DIGESTS = {"irs": "ir", "iits": "iit", "itris": "itri"}
+
+
 def weight(op):
-    if op.startswith("irs "):
+    if op.split(" ", 1)[0] in DIGESTS:
         return 1 << BITS[op.split()[1]][1]
     return 1
 
 
 def refine(op):
     t = op.split()
-    if t[0] == "irs":
+    if t[0] in DIGESTS:
         lo, hi = lo_hi(t[1])
-        return [f"ir {t[1]} {t[2]} {e}" for e in range(lo, hi + 1)]
+        return [f"{DIGESTS[t[0]]} {t[1]} {t[2]} {e}" for e in range(lo, hi + 1)]
     return None
 
 
 def equivalent(op, impl, model):
-    # `irub`: the real size() call where end_ - begin_ overflows int/long: UBSan's report is the model's fault
-    if op.startswith("irub ") and model == "signed-overflow":
-        return impl.startswith("CRASH(") and "overflow" in impl
+    # undefined behaviour really executed: UBSan's report (the harness dies on that line) is the model's fault.
+    #  irub: size() where end_ - begin_ overflows int/long;  cycl: it + k / it - k overflowing ptrdiff_t;
+    #  sp: a spiral range leaving the coordinate type;  nb: neighbours of a position on the edge of int / long;
+    #  cycx: advance on an empty boundary (% 0)
+    kind = op.split(" ", 1)[0]
+    if kind in ("irub", "cycl", "sp", "nb") and model == "signed-overflow":
+        return impl.startswith("CRASH(") and ("overflow" in impl or "cannot be represented" in impl)
+    if kind == "cycx" and (model == "div-zero" or model.endswith(",div-zero")):
+        return impl.startswith("CRASH(") and "division by zero" in impl
     return False
 
 
@@ -174,6 +197,14 @@ def batches(rng, tier):
                     for k in range(-60, 61):
                         ops.append(f"cyc {f + ln + 1} {f} {f + ln} {start} {k}")
         yield Batch("cyclic-advance-all-wider", ops, exhaustive=True, note="boundary lengths 1..12, every start, every k in [-60,60]")
+    ops = []
+    for ln in (13, 16, 17, 31, 32, 33, 63, 64):
+        for f in ((0, 64 - ln) if ln < 64 else (0,)):
+            for off in sorted({0, 1, ln // 2, ln - 2, ln - 1}):
+                for k in sorted({-2 * ln - 1, -ln - 1, -ln, -ln + 1, -off - 1, -off, -1, 0, 1, ln - off - 1, ln - off, ln - 1, ln, ln + 1, 2 * ln, 3 * ln + 2}):
+                    ops.append(f"cyc 64 {f} {f + ln} {f + off} {k}")
+    yield Batch("cyclic-advance-long-boundaries", ops, exhaustive=True,
+                note="boundary lengths 13 .. 64 (at both ends of the container), offsets at the ends and the middle, step counts around every wrap point")
     r = rng.fork("cycbig")
     ops = []
     for _ in range(3000 if thorough else 500):
@@ -218,7 +249,12 @@ def batches(rng, tier):
         for (x, y) in origins:
             for d in dists:
                 ops.append(f"sp {ty} {x} {y} {d}")
-    ops += ["sp i32 0 0 49", "sp i32 7 -9 50", "sp i64 3 3 -1", "sp i32 3 3 -2", "sp i32 0 0 -3", "sp i64 100 -100 20"]
+    ops += ["sp i32 0 0 49", "sp i32 7 -9 50", "sp i64 100 -100 20"]
+    # negative distances (the documentation is silent; the model mirrors the code): end() lies above the origin and is met on ring |d| + 1 ... or never
+    for ty in ("i32", "i64"):
+        for (x, y) in ((0, 0), (3, 3), (-7, 2)):
+            for d in list(range(-9, 0)) + [-50]:
+                ops.append(f"sp {ty} {x} {y} {d}")
     yield Batch("spiral-ranges", ops, exhaustive=True,
                 note=f"make_spiral_range for every distance in {dists[0]}..{dists[-1]} from origins near 0, random, and near the limits of int / long")
 
@@ -237,6 +273,9 @@ def batches(rng, tier):
         ops += [f"nb {ty} {x} {y}" for (x, y) in pts]
     yield Batch("neighbours", ops, note="neumann_neighbors / moore_neighbors at origin, random and boundary positions")
 
+    yield Batch("neighbours-overflow", ["nb i32 -2147483648 0", "nb i64 0 9223372036854775807", "nb i32 5 2147483647", "nb i64 -9223372036854775808 -9223372036854775808"],
+                note="a position on the edge of int / long: x - 1 / x + 1 overflows (undefined; UBSan's report = the model's signed-overflow)")
+
     # 9. iterator::range / make_range / adapt_range / range::size
     ops = []
     for kind in ("v", "l"):
@@ -250,7 +289,199 @@ def batches(rng, tier):
     yield Batch("iterator-ranges", ops, exhaustive=True, note="every sub-range [i, j) of vectors / lists up to length 6; adapt_range of whole containers")
 
     # 10. math::int_range_count
-    yield Batch("static-int-range-count", [f"mirc {n}" for n in (0, 1, 2, 3, 5, 8, 16)], exhaustive=True, note="math::int_range_count<N>")
+    yield Batch("static-int-range-count", [f"mirc {n}" for n in (0, 1, 2, 3, 5, 8, 16)] +
+                [f"mir {a} {b}" for (a, b) in ((0, 0), (0, 3), (1, 2), (2, 5), (3, 3), (5, 16), (15, 16))], exhaustive=True,
+                note="math::int_range_count<N>, math::int_range<A, B>")
+
+    # 11. int_iterator used directly: == != (all pairs, same object), *, it++, member / free / self swap
+    for ty in T8:
+        lo, hi = lo_hi(ty)
+        yield Batch(f"int-iterator-all-pairs-{ty}", [f"iits {ty} {a}" for a in range(lo, hi + 1)], exhaustive=True,
+                    note=f"int_iterator<{ty}>: == != * it++ swap for all 65536 pairs of values")
+    ops = []
+    for ty in WIDE:
+        lo, hi = lo_hi(ty)
+        small = sorted({lo, lo + 1, hi - 1, hi, 0, 1, hi // 2, lo // 2 if lo < 0 else 2})
+        for a in small:
+            for b in small:
+                ops.append(f"iit {ty} {a} {b}")
+    yield Batch("int-iterator-wide", ops, exhaustive=True, note="int_iterator over 16/32/64-bit and strong-typedef types: all pairs of the limits, 0, 1, the middle")
+
+    # 12. iterator::range over int_iterators (no clamp: an inverted pair runs through the wrap-around of narrow / unsigned types)
+    for ty in ("i8", "u8", "su8"):
+        lo, hi = lo_hi(ty)
+        yield Batch(f"iterator-range-of-int-iterators-{ty}", [f"itris {ty} {b}" for b in range(lo, hi + 1)], exhaustive=True,
+                    note=f"iterator::make_range(int_iterator<{ty}>(b), int_iterator<{ty}>(e)) for all 65536 pairs")
+    ops = []
+    for ty in WIDE:
+        lat = lattice(ty)
+        for b in lat:
+            for e in lat:
+                if e >= b or not (BITS[ty][0] and BITS[ty][1] >= 32):
+                    ops.append(f"itri {ty} {b} {e}")
+    yield Batch("iterator-range-of-int-iterators-wide", ops, note="the same for the boundary lattice of the wider types (inverted pairs only where ++ wraps)")
+
+    # 13. enum_::iterator used directly and enum_::range constructed directly from two size_type values
+    ops = []
+    for n, w in list(ENUMS.items()) + [(256, 8)]:
+        top = min(n, (1 << w) - 1)
+        vals = range(top + 1) if n <= 9 else [0, 1, 2, 127, 128, 254, 255]
+        for a in vals:
+            for b in vals:
+                ops.append(f"eit {n} {w} {a} {b}")
+                if a <= b or n <= 4:
+                    ops.append(f"erd {n} {w} {a} {b}")
+    yield Batch("enum-iterator-all-pairs", ops, exhaustive=True,
+                note="enum_::iterator: == != * it++ swap for all pairs of positions 0..n; enum_::range(b, e) for all b <= e <= n")
+
+    # 14. cyclic iterator, every public member on pairs of iterators: positions anywhere in the container (inside, at the end
+    #     of / outside the boundary), empty boundaries, different boundaries, the same object on both sides
+    ops = []
+    L = 4
+    for f1 in range(L + 1):
+        for s1 in range(f1, L + 1):
+            for i in range(L + 1):
+                for f2 in range(L + 1):
+                    for s2 in range(f2, L + 1):
+                        for j in range(L + 1):
+                            ops.append(f"cycp {L} {f1} {s1} {i} {f2} {s2} {j}")
+    L = 7
+    for f in range(L + 1):
+        for s_ in range(f, L + 1):
+            for i in range(L + 1):
+                for j in range(L + 1):
+                    ops.append(f"cycp {L} {f} {s_} {i} {f} {s_} {j}")
+    yield Batch("cyclic-pairs-all", ops, exhaustive=True,
+                note="container of 4: every (boundary, position) x (boundary, position); container of 7: every boundary x every two positions: "
+                     "== != < > <= >= a-b, self comparison, get, get_boundary, ->, swap (member, free, self), copy construction / assignment")
+
+    # 15. walks from arbitrary positions (outside / at the end of the boundary, empty boundary)
+    ops = []
+    L = 7
+    for f in range(1, L):
+        for s_ in range(f, L):
+            for i in range(1, L):
+                for o in "+-pm":
+                    ops.append(f"cycx v {L} {f} {s_} {i} {o}")
+                    ops.append(f"cycx l {L} {f} {s_} {i} {o}")
+                if f < s_:
+                    for k in range(-4, 5):
+                        for o in "asi":
+                            ops.append(f"cycx v {L} {f} {s_} {i} {o}{k}")
+    L = 8
+    for f in range(2, L - 1):
+        for s_ in range(f, L - 1):
+            for i in range(2, L - 1):
+                for o1 in "+-pm":
+                    for o2 in "+-pm":
+                        ops.append(f"cycx {'v' if (f + s_ + i) % 2 else 'l'} {L} {f} {s_} {i} {o1} {o2}")
+                if f < s_:
+                    for k in (-3, 0, 1, 5):
+                        ops.append(f"cycx v {L} {f} {s_} {i} a{k} +")
+                        ops.append(f"cycx v {L} {f} {s_} {i} - s{k}")
+    r = rng.fork("cycx")
+    for _ in range(2000 if thorough else 300):
+        n = r.range(3, 6)
+        L = r.range(2 * n + 1, 2 * n + 6)
+        f = r.range(n, L - n)
+        s_ = r.range(f, L - n)
+        i = r.range(n, L - n)
+        kind = r.choice(["v", "l"])
+        steps = []
+        for _ in range(n):
+            if kind == "v" and f < s_ and r.below(3) == 0:
+                steps.append(r.choice(["a", "s", "i"]) + str(r.range(-9, 9)))
+            else:
+                steps.append(r.choice(["+", "-", "p", "m"]))
+        ops.append(f"cycx {kind} {L} {f} {s_} {i} " + " ".join(steps))
+    yield Batch("cyclic-walks-from-anywhere", ops, exhaustive=True,
+                note="every boundary f <= s (also empty) and every start position of a container of 7 / 8: every single operation, every two-step "
+                     "sequence of ++ -- it++ it--, += -= [] from outside; random longer walks")
+    yield Batch("cyclic-empty-boundary-advance", ["cycx v 8 3 3 3 a2", "cycx v 8 4 4 2 + s1", "cycx v 8 2 2 5 i0"],
+                note="advance on an empty boundary divides by zero (UBSan's report = the model's div-zero)")
+
+    # 16. it + k / it - k in the arithmetic of ptrdiff_t, k up to the limits
+    ops = []
+    for ln in (1, 2, 3, 5, 7):
+        for f in (0, 2):
+            for off in sorted({0, 1, ln - 1, ln // 2}):
+                if off >= ln:
+                    continue
+                ks = {I64_MAX - off, I64_MAX - off - 1, I64_MIN + 1, -I64_MAX, I64_MIN + ln, 1 << 31, (1 << 31) - 1, -(1 << 31), -(1 << 31) - 1, 1 << 32, (1 << 32) + 1,
+                      -(1 << 32), 1 << 62, -(1 << 62), (1 << 33) * ln, (1 << 33) * ln + 1, -(1 << 33) * ln - 1, 10 ** 18, -10 ** 18 + 7, 0, 1, -1}
+                for k in sorted(ks):
+                    ops.append(f"cycl {f + ln + 1} {f} {f + ln} {f + off} + {k}")
+                    ops.append(f"cycl {f + ln + 1} {f} {f + ln} {f + off} - {-k}")
+                if off == 0:
+                    ops.append(f"cycl {f + ln + 1} {f} {f + ln} {f} + {I64_MIN}")
+    r = rng.fork("cycl")
+    for _ in range(1500 if thorough else 300):
+        ln = r.range(1, 9)
+        f = r.below(3)
+        off = r.below(ln)
+        k = r.range(I64_MIN + 1, I64_MAX - off)
+        ops.append(f"cycl {f + ln + 1} {f} {f + ln} {f + off} {r.choice(['+', '-'])} {k if r.below(2) else -k}")
+    yield Batch("cyclic-advance-64bit", ops, note="advance by step counts up to the limits of ptrdiff_t (no intermediate overflow): + += k+it and - -=")
+    yield Batch("cyclic-advance-overflow", [f"cycl 5 1 4 2 + {I64_MAX}", f"cycl 5 1 4 1 - {I64_MIN}", f"cycl 4 0 3 2 + {I64_MAX - 1}"],
+                note="distance(first, it) + n overflows / -n overflows: undefined, UBSan's report = the model's signed-overflow")
+
+    # 17. default constructor, assignment
+    ops = [f"cycd {k} {L} {i} {f} {s_}" for k in "vl" for L in (0, 3) for f in range(L + 1) for s_ in range(f, L + 1) for i in range(L + 1)]
+    yield Batch("cyclic-default-ctor", ops, exhaustive=True, note="cyclic_iterator(): value-initialised iterator and boundary; assignment from a real iterator")
+
+    # 17b. converting constructor / assignment (iterator -> const_iterator), then advance on the converted iterator
+    ops = []
+    L = 5
+    for kind in "vl":
+        for f in range(L):
+            for s_ in range(f + 1, L + 1):
+                for i in range(f, s_):
+                    for (f2, s2, j) in ((0, 0, 0), (1, 4, 2), (f, s_, i), (0, L, L)):
+                        for k in (-7, -1, 0, 1, 2, 6, 11):
+                            ops.append(f"cycc {kind} {L} {f} {s_} {i} {f2} {s2} {j} {k}")
+    yield Batch("cyclic-converting-ctor-assign", ops, exhaustive=True,
+                note="every boundary / position of a container of 5: cyclic_iterator<const_iterator>{cyclic_iterator<iterator>}, converting assignment into a "
+                     "default-constructed and over an existing iterator, OtherIterator = same type; the converted iterator advanced by k; source and copy independent")
+
+    # 18. spiral_iterator used directly
+    r = rng.fork("spi")
+    ops = []
+    for ty, big in (("i32", 2 ** 31 - 1 - 20000), ("i64", 2 ** 63 - 1 - 20000)):
+        origins = [(0, 0), (3, -4), (big, -big), (-big, big), (r.range(-big, big), r.range(-big, big))]
+        for (x, y) in origins:
+            for d in range(0, 7):
+                for n in sorted({0, 1, 2, 2 * d * (d + 1), 2 * d * (d + 1) + 1, 2 * d * (d + 1) + 4, 100}):
+                    ops.append(f"spi {ty} {x} {y} {d} {n}")
+            for d in (-1, -2, -3, -4, -5, -8, -100):
+                ops.append(f"spi {ty} {x} {y} {d} 30")
+            ops.append(f"spi {ty} {x} {y} 9 300")
+    yield Batch("spiral-iterator-direct", ops, exhaustive=True,
+                note="spiral_iterator(pos, d): n steps alternating ++it / it++ (also past end()), the step at which it == end(), == with another max_dist, swap")
+
+    # 19. spiral ranges touching the limits of the coordinate type: the box of radius d + 1 around the origin must fit
+    ops = []
+    for ty in ("i32", "i64"):
+        lo, hi = lo_hi(ty)
+        for d in (0, 1, 2, 5):
+            m = d + 1
+            for (x, y) in ((hi - m, 0), (lo + m, 0), (0, hi - m), (0, lo + m), (hi - m, hi - m), (lo + m, lo + m), (hi - m, lo + m), (lo + m, hi - m),
+                           (hi - m - 1, lo + m + 1)):
+                ops.append(f"sp {ty} {x} {y} {d}")
+    yield Batch("spiral-at-type-limits", ops, exhaustive=True, note="origins exactly d + 1 away from the limits of int / long: the whole walk (incl. the step onto end()) fits")
+    yield Batch("spiral-overflow", ["sp i32 2147483647 0 1", "sp i32 0 -2147483647 1", "sp i64 -9223372036854775808 5 0", "sp i32 3 2147483646 1",
+                                    "sp i64 9223372036854775805 0 2"],
+                note="origins closer than d + 1 to a limit: end() or a step overflows int / long (undefined; UBSan's report = the model's signed-overflow)")
+
+    # 20. iterator::range comparison, begin(), end()
+    ops = []
+    for kind in ("v", "l"):
+        for L in (0, 1, 4):
+            for i in range(L + 1):
+                for j in range(i, L + 1):
+                    for k in range(L + 1):
+                        for m in range(k, L + 1):
+                            ops.append(f"itrc {kind} {L} {i} {j} {k} {m}")
+    yield Batch("iterator-range-comparison", ops, exhaustive=True, note="operator== / != of every two sub-ranges of containers of length 0, 1, 4")
 
 
 MANIFEST = {
